@@ -371,7 +371,7 @@ fn run(run: &mut Run) {
     run.enumerate("record-faults", *fault_table(st).last().unwrap(), &f);
     let np = real_patterns().len() as u64;
     run.enumerate("reals", np * np, &reals_case);
-    run.explore("mutations", run.tier.pick(60_000, 3_000_000), 64, &noise_case);
+    run.explore("mutations", run.tier.pick(400_000, 4_000_000), 64, &noise_case);
     run.enumerate("alloc-scaling", run.tier.pick(2 * 5, 2 * 7), &scaling_case);
 }
 fn case(sub: &str) -> Option<Box<CaseFn<'static>>> {
